@@ -417,7 +417,15 @@ func (e *Exec) CaseCoq(obs []Obs) string {
 	for _, k := range e.HashDiff {
 		hd = append(hd, fmt.Sprint(k))
 	}
-	return "mkCase " + e.initCoq() + "\n  " + cList(evs) + "\n  " + cList(os) + "\n  " + cList(hd)
+	rt := "None"
+	if e.RT != nil {
+		sn := "None"
+		if e.RT.Snap != nil {
+			sn = "(Some " + e.RT.Snap.coq(e) + ")"
+		}
+		rt = fmt.Sprintf("(Some (%s, %s, %s))", classCoq(e.RT.Class), sn, cBool(e.RT.SameExport))
+	}
+	return "mkCase " + e.initCoq() + "\n  " + cList(evs) + "\n  " + cList(os) + "\n  " + cList(hd) + "\n  " + rt
 }
 
 // typed events as (kind, tenant, record id); see Exec/Run.v
